@@ -43,6 +43,15 @@ def parse_sections(text):
     return secs
 
 
+def _copy_lock(repo, dst):
+    """the lock file pins the cached crate versions for offline builds; a worktree may not carry it (git-ignored)"""
+    for cand in (os.path.join(repo, 'Cargo.lock'), '/repo/Cargo.lock'):
+        if os.path.exists(cand):
+            shutil.copy(cand, dst)
+            return
+    raise lift.LiftError('no Cargo.lock found in %s (needed to build offline)' % repo)
+
+
 def prepare_scratch(unit, repo, scratch):
     """copy crate(s), apply sections; returns (crate_dir, provenance)"""
     cfg = json.load(open(os.path.join(VERIF, 'contracts', unit, 'harnesses.json')))
@@ -50,7 +59,7 @@ def prepare_scratch(unit, repo, scratch):
     if cfg['mode'] == 'inplace-lber':
         dst = os.path.join(scratch, 'lber')
         shutil.copytree(os.path.join(repo, 'lber'), dst, ignore=shutil.ignore_patterns('target'))
-        shutil.copy(os.path.join(repo, 'Cargo.lock'), os.path.join(dst, 'Cargo.lock'))
+        _copy_lock(repo, os.path.join(dst, 'Cargo.lock'))
         with open(os.path.join(dst, 'Cargo.toml'), 'a') as f:
             f.write('\n[workspace]\n')
         os.makedirs(os.path.join(dst, '.cargo'), exist_ok=True)
@@ -67,7 +76,7 @@ def prepare_scratch(unit, repo, scratch):
         os.makedirs(os.path.join(crate, '.cargo'))
         open(os.path.join(crate, '.cargo', 'config.toml'), 'w').write('[net]\noffline = true\n')
         open(os.path.join(crate, 'Cargo.toml'), 'w').write(cfg['cargo_toml'])
-        shutil.copy(os.path.join(repo, 'Cargo.lock'), os.path.join(crate, 'Cargo.lock'))
+        _copy_lock(repo, os.path.join(crate, 'Cargo.lock'))
         udir = os.path.join(VERIF, 'contracts', unit)
         for src_rel, dst_rel in cfg.get('copy_files', {}).items():
             sp = os.path.join(repo, src_rel)
